@@ -4,7 +4,7 @@ From Coq Require Import List NArith ZArith Bool.
 From Muscle Require Import Gen.Consts Refl.Base Refl.Tree Refl.Matcher Refl.Traverse Refl.Session Refl.Server Refl.Route
   Refl.TravBase Refl.TraverseProofs Refl.TraverseTheorems Refl.TraverseExit Refl.TravWitness Refl.RouteProofs Refl.RouteRun
   Refl.RouteWitness Pat.Ere Pat.Translate Refl.ClauseKeys Refl.PatInst Refl.RoutePat
-  Refl.BaseProofs Refl.ServerProofs Refl.RouteReach.
+  Refl.BaseProofs Refl.ServerProofs Refl.RouteReach Refl.RouteInbox Refl.RoutePatReach.
 Import ListNotations.
 
 (* The theorems below are about the repaired code: the sources the translator has just read must not contain the
@@ -14,7 +14,7 @@ Import ListNotations.
 Theorem code_is_repaired :
   (c_c05_guard_as_found, c_c05_once_as_found, c_c05_route_as_found, c_c05_uvkeys_as_found) = (0, 0, 0, 0)%N /\
   (c_c05_pass_returns_session_depth, c_c05_default_flags_gw_and_nb) = (1, 1)%N /\ r_as_is = r_all_fixed /\
-  (forall st, clause_keys st = clause_keys_with true st).
+  ((forall st, clause_keys st = clause_keys_with true st) \/ (forall st, clause_keys st = clause_keys_all st)).
 Proof. exact code_is_repaired_lemma. Qed.
 Print Assumptions code_is_repaired.
 
@@ -275,3 +275,95 @@ Theorem uvkeys_refuted_as_found :
     clause_keys_with true (sm_of ere_engine p) = Some [[97; 92; 98]; [99]]%N.
 Proof. exact uvkeys_refuted_as_found_lemma. Qed.
 Print Assumptions uvkeys_refuted_as_found.
+
+(* ---- whole histories, and the StringMatcher model without any clause premise ---- *)
+
+(* the routing record of an attached session always exists (ids of records = ids of sessions, in every reachable state), so
+   deliver_once_reachable needs no hypothesis about it *)
+Theorem deliver_once_reachable_full :
+  forall (M : MatchOps) (L : MatchLaws M) (evs : list revent) (s : sid) (ss : session) (m : umsg),
+    small (run_budget (flat_map srv_ev evs)) -> wf_run (srv_fixes r_all_fixed) empty_server (flat_map srv_ev evs) ->
+    let st := rrun r_all_fixed evs empty_rstate in
+    get_session (rs_srv st) s = Some ss -> in_cmd_range (u_what m) = false ->
+    exists ri, get_info st s = Some ri /\
+      rstep r_all_fixed st (RCmd s (RMsg m))
+      = mkRS (rs_srv st)
+             (map (fun x => if route_targets st s ri m (ri_id x)
+                            then put_inbox s (mkD s (u_tag m) (overwrite (u_session m) (s_name ss))) x else x) (rs_info st)).
+Proof. exact @deliver_once_reachable_full_lemma. Qed.
+Print Assumptions deliver_once_reachable_full.
+
+(* The WHOLE outgoing queue of a session at the end of ANY history from the empty server equals [expected_inbox]: the
+   concatenation, in the order sent, of exactly the Messages addressed to it ([route_targets], and its own
+   neighbours-to-gateway flag) since it arrived -- exactly once each, nothing else, in order. *)
+Theorem inbox_closed_form :
+  forall (M : MatchOps) (L : MatchLaws M) (evs : list revent) (r : sid) (x' : rinfo),
+    small (run_budget (flat_map srv_ev evs)) -> wf_run (srv_fixes r_all_fixed) empty_server (flat_map srv_ev evs) ->
+    get_info (rrun r_all_fixed evs empty_rstate) r = Some x' -> ri_inbox x' = expected_inbox empty_rstate evs r [].
+Proof. exact @inbox_closed_form_lemma. Qed.
+Print Assumptions inbox_closed_form.
+
+Example inbox_closed_form_example :
+  expected_inbox empty_rstate f19_history 1%N [] = [mkD 0%N 7%N SAbsent] /\
+  expected_inbox empty_rstate f19_history 2%N [] = [] /\
+  small (run_budget (flat_map srv_ev f19_history)).
+Proof. exact f19_expected_inbox. Qed.
+
+(* With both repairs of DoTraversalAux's key parsing (F52, F63) every item of a list pattern is a lookup key, and the clause
+   law holds of every canonical name, the empty one included (C15: unique_sound, uvlist_exact). *)
+Theorem clause_laws_hold_all_items :
+  forall (tbl : name -> list N) (untbl : list N -> name), (forall s, tbl (untbl s) = s) ->
+    (forall (c : list N) (ks : list name) (k : name),
+       canon tbl untbl k -> pkeys_all untbl c = Some ks -> pmatch tbl c k = true -> In k ks) /\
+    (forall (c : list N) (ks : list name) (k : name), pkeys_all untbl c = Some ks -> In k ks -> pmatch tbl c k = true).
+Proof. exact clause_laws_all_lemma. Qed.
+Print Assumptions clause_laws_hold_all_items.
+
+(* The instance pat_ops_n (the one the extracted model runs with once both repairs are in the sources) satisfies build-C04's
+   class MatchLaws outright, and on every canonical name it IS the StringMatcher model. *)
+Theorem stringmatcher_instance_matchlaws :
+  forall (tbl : name -> list N) (untbl : list N -> name), MatchLaws (pat_ops_n tbl untbl).
+Proof. exact PatLaws. Qed.
+Print Assumptions stringmatcher_instance_matchlaws.
+
+Theorem stringmatcher_instance_is_the_model :
+  forall (tbl : name -> list N) (untbl : list N -> name), (forall s, tbl (untbl s) = s) ->
+  forall (c : list N) (k : name), canon tbl untbl k -> pmatch_n tbl untbl c k = pmatch tbl c k.
+Proof. exact pmatch_n_agrees. Qed.
+Print Assumptions stringmatcher_instance_is_the_model.
+
+(* ... hence, for the StringMatcher model, with NO clause premise: every reachable state satisfies the invariants,
+   deliver_once holds in it, and whole queues have the closed form *)
+Theorem reachable_states_satisfy_premises_stringmatcher :
+  forall (tbl : name -> list N) (untbl : list N -> name) (evs : list (@revent (pat_ops_n tbl untbl))),
+    small (run_budget (flat_map srv_ev evs)) ->
+    @wf_run (pat_ops_n tbl untbl) (srv_fixes r_all_fixed) empty_server (flat_map srv_ev evs) ->
+    tree_wf (sv_tree (rs_srv (rrun r_all_fixed evs empty_rstate))) /\
+    NoDup (map s_id (sv_sessions (rs_srv (rrun r_all_fixed evs empty_rstate)))) /\
+    routes_wf (rrun r_all_fixed evs empty_rstate) /\ aligned (rrun r_all_fixed evs empty_rstate).
+Proof. exact reachable_premises_stringmatcher_lemma. Qed.
+Print Assumptions reachable_states_satisfy_premises_stringmatcher.
+
+Theorem deliver_once_reachable_stringmatcher :
+  forall (tbl : name -> list N) (untbl : list N -> name)
+         (evs : list (@revent (pat_ops_n tbl untbl))) (s : sid) (ss : @session (pat_ops_n tbl untbl)) (m : @umsg (pat_ops_n tbl untbl)),
+    small (run_budget (flat_map srv_ev evs)) ->
+    @wf_run (pat_ops_n tbl untbl) (srv_fixes r_all_fixed) empty_server (flat_map srv_ev evs) ->
+    let st := rrun r_all_fixed evs empty_rstate in
+    get_session (rs_srv st) s = Some ss -> in_cmd_range (u_what m) = false ->
+    exists ri, get_info st s = Some ri /\
+      rstep r_all_fixed st (RCmd s (RMsg m))
+      = mkRS (rs_srv st)
+             (map (fun x => if route_targets st s ri m (ri_id x)
+                            then put_inbox s (mkD s (u_tag m) (overwrite (u_session m) (s_name ss))) x else x) (rs_info st)).
+Proof. exact deliver_once_reachable_stringmatcher_lemma. Qed.
+Print Assumptions deliver_once_reachable_stringmatcher.
+
+Theorem inbox_closed_form_stringmatcher :
+  forall (tbl : name -> list N) (untbl : list N -> name)
+         (evs : list (@revent (pat_ops_n tbl untbl))) (r : sid) (x' : @rinfo (pat_ops_n tbl untbl)),
+    small (run_budget (flat_map srv_ev evs)) ->
+    @wf_run (pat_ops_n tbl untbl) (srv_fixes r_all_fixed) empty_server (flat_map srv_ev evs) ->
+    get_info (rrun r_all_fixed evs empty_rstate) r = Some x' -> ri_inbox x' = expected_inbox empty_rstate evs r [].
+Proof. exact inbox_closed_form_stringmatcher_lemma. Qed.
+Print Assumptions inbox_closed_form_stringmatcher.
